@@ -322,7 +322,7 @@ fn replay(v: &Value) -> Result<(), String> {
 }
 
 pub fn subchecks(tier: Tier) -> Vec<SubCheck> {
-    let n = tier.pick(40_000usize, 600_000usize);
+    let n = tier.pick(60_000usize, 1_000_000usize);
     vec![SubCheck {
         name: "transcripts_across_configurations",
         run: Box::new(move |ctx| run_c14(ctx, n)),
